@@ -35,7 +35,7 @@ class C13(GProp):
              'tephra-combinator/src/list.rs', 'tephra-error/src/error/lexer.rs', 'tephra-error/src/error/delimit.rs']
     rule = ('failing (grammar, text) pairs: every primitive (one, any, any_index, seq, pred, end_of_text) as the failing leaf at the '
             'first token, after consumed tokens, after filtered tokens and at end of text (systematic), plus seeded random failing '
-            'grammars from the C06/C07/C10 families, returned (no sink) and reported (through recover with a sink); every error is '
+            'grammars from the C06/C07/C10/C11 families (incl. up_to / list boundary failures with no separator or abort token left and texts ending in filtered tokens), returned (no sink) and reported (through recover with a sink); every error is '
             'taken apart: all positions canonical and start <= end; for unexpected-token errors the found token is the token whose '
             'span is the error\'s token span, it is the first deliverable token at or after the end of the parse-so-far span, and '
             'end-of-text is only reported when no deliverable token remains; bracket errors carry the spans of the tokens the '
@@ -61,9 +61,18 @@ class C13(GProp):
                     add(t, g, 0, le='lf', tab=4)
                     add(t, ['recoverdef', ['before', 'Semi'], g], 1)
         for i in range(1500 if tier == 'quick' else 20000):
-            k = r.below(3)
+            k = r.below(4)
             t = spangen.random_text(r, ['a', 'b', 'c', 'comma', 'sp', 'sp', 'TAB', 'LF', 'e2', 'bang'], 12)
-            if k == 0:
+            if k == 3:
+                # boundary and count errors (C11 family): an item followed by something that is neither separator nor abort
+                # token, with and without a separator / abort token further on, texts ending in filtered tokens or a rejected char
+                item = r.choice([['one', 'A'], ['seq', 'A', 'B'], ['both', ['one', 'A'], ['maybe', ['one', 'B']]]])
+                ab = r.choice([[], ['Semi'], ['C']])
+                g = r.choice([['upto', item, ['Comma'] + ab], ['upto', item, ['Comma'] + ab], ['list', item, 'Comma', ab],
+                              ['listb', 1 + r.below(2), r.choice(['inf', 3]), item, 'Comma', ab], ['listdef', item, 'Comma', ab]])
+                t = spangen.random_text(r, ['a', 'a', 'b', 'b', 'c', 'comma', 'semi', 'sp', 'sp', 'LF'], 2 + r.below(8))
+                if r.chance(1, 2): t = [x for x in t if x not in ('comma', 'semi', 'c')] + r.choice([['sp'], ['sp', 'LF'], ['TAB'], ['sp', 'bang'], []])
+            elif k == 0:
                 g = parsegen.gen_c06(r, 2 + r.below(8))
             elif k == 1:
                 g = c07mod.gen_rep(r, 1 + r.below(3))
@@ -74,7 +83,7 @@ class C13(GProp):
         return out
 
     def nontrivial(self, ct, it):
-        return any(isinstance(e, list) and e and e[0] in ('unexpected', 'bracket') for _, e in errors_of(it))
+        return any(isinstance(e, list) and e and e[0] in ('unexpected', 'bracket', 'boundary', 'count') for _, e in errors_of(it))
 
     def oracle(self, ct, it):
         c = pfields(ct)
@@ -96,6 +105,13 @@ class C13(GProp):
                     fails.append((None, '%s error %s: span %s has a non-canonical endpoint' % (how, txt[:80], m.group(0))))
                 if a[0] > b[0]:
                     fails.append((None, '%s error %s: span %s runs backwards' % (how, txt[:80], m.group(0))))
+            if e[0] == 'boundary':
+                d = {x[0]: x[1:] for x in e[1:]}
+                es, endp = parse_span(d['es'][0]), parse_pos(d['end'][0])
+                if canon.get(endp[0]) != endp:
+                    fails.append((None, '%s boundary error %s: end position is not canonical' % (how, txt[:80])))
+                elif endp[0] < es[1][0]:
+                    fails.append((None, '%s boundary error %s: quoted end lies before the end of the parse-so-far span' % (how, txt[:80])))
             if e[0] == 'unexpected':
                 d = {x[0]: x[1:] for x in e[1:]}
                 es, ts, found = parse_span(d['es'][0]), parse_span(d['ts'][0]), d['found'][0]
